@@ -64,8 +64,10 @@ def ord_int_sites(prog, prefix='yabgp.message'):
                 cur = n
                 while cur in par:
                     p = par[cur]
-                    if isinstance(p, ast.If) and 'isinstance(' in src_of(p.test) and ', int)' in src_of(p.test):
-                        if any(cur is x or any(y is cur for y in ast.walk(x)) for x in p.orelse):
+                    if isinstance(p, ast.If):
+                        tt = common.unalias(f.node, p.test)
+                        if 'isinstance(' in tt and ', int)' in tt and \
+                                any(cur is x or any(y is cur for y in ast.walk(x)) for x in p.orelse):
                             dead = True
                     if isinstance(p, ast.ListComp):
                         # [ord(i) for i in tmp]: i is a loop variable, not an index into bytes
